@@ -44,6 +44,11 @@ def check (inp out : List String) : Verdict :=
       { agree := m == outs, model := joinSp (m.map showOut),
         specFail := failing [("director_decides_after_every_processed_signal_also_after_an_overrun", m == outs)] }
     | _, _ => .bad "director group tokens"
+  | ["daemon9", _mode] =>
+    -- the real daemon in this operating mode: nothing at 1500 rpm, the shutdown code on the bus at 2300 rpm
+    let want := ["up=1", "quiet_at_1500=1", "shutdown_code_at_2300=1"]
+    { agree := out == want, model := joinSp want,
+      specFail := if out == want then [] else ["the_daemon_enacts_the_emergency_sequence_in_every_operating_mode"] }
   | _ => .bad "director arity"
 
 end Glonax.Driver.DirDrv
